@@ -13,7 +13,7 @@ const (
 	clCancel = "a subscriber cancelling never fails or stalls another subscriber"
 	clShare  = "connections are shared only between subscriptions with the same endpoint, protocol, headers and init payload"
 	clIdle   = "a connection does not outlive its last subscription by more than the configured idle period"
-	clDead   = "no deadlock: every Subscribe and unsubscribe call returns"
+	clDead   = "no deadlock or stall: every Subscribe and unsubscribe call returns and every stream on a lost connection ends"
 )
 
 type finding struct {
@@ -81,12 +81,19 @@ func symptom(o subOutcome, want []string) string {
 		symClosed = "connection closed under a live subscriber (ErrConnectionClosed)"
 		symLost   = "connection torn down under a live subscriber (read / write error)"
 	)
+	// a local close (ErrConnectionClosed) anywhere in the outcome names the cause
+	if o.Err == "connection-closed(local)" {
+		return symClosed
+	}
+	for _, m := range o.Msgs {
+		if m == "connerr:connection-closed(local)" {
+			return symClosed
+		}
+	}
 	switch {
 	case o.Err == "":
 	case o.Err == "context-canceled":
 		return "Subscribe fails with another caller's context cancellation"
-	case o.Err == "connection-closed(local)":
-		return symClosed
 	case o.Err == "net-closed" || strings.HasPrefix(o.Err, "connection-lost"):
 		return symLost
 	default:
@@ -95,10 +102,7 @@ func symptom(o subOutcome, want []string) string {
 	for _, m := range o.Msgs {
 		if strings.HasPrefix(m, "connerr:") {
 			cls := strings.TrimPrefix(m, "connerr:")
-			switch {
-			case cls == "connection-closed(local)":
-				return symClosed
-			case cls == "net-closed" || strings.HasPrefix(cls, "connection-lost"):
+			if cls == "net-closed" || strings.HasPrefix(cls, "connection-lost") {
 				return symLost
 			}
 			return "stream fails: " + cls
@@ -207,7 +211,7 @@ func judge(in *instance, twin map[int]map[string]bool) (string, []finding, map[s
 			// its own cancellation may end it anywhere: only the routing checks above
 		case twin != nil:
 			// differential non-interference
-			if !twin[i][o.key()] {
+			if !twin[i][o.refKey(sc.faulty())] {
 				add(clCancel, symptom(o, want), pairClass(sc, i),
 					"%s (never cancelled) ended as %s; in the twin scenario without the cancellation it only ends as %v",
 					st.spec.Name, o.key(), sortedKeys(twin[i]))
